@@ -155,8 +155,60 @@ class SharedState(object):
                     return None
         return out
 
+    def _closure_cells(self):
+        """mutable containers held in closure cells (and in function attributes / defaults) of athlib functions and methods: a hand-written memo decorator keeps
+        its table there, where no module or class attribute points at it"""
+        cc = getattr(self, '_cells', None)
+        if cc is None:
+            cc, seen = [], set()
+
+            def visit(f, depth=0):
+                f = getattr(f, '__func__', f)
+                if not isinstance(f, types.FunctionType) or id(f) in seen or depth > 3:
+                    return
+                seen.add(id(f))
+                if not (getattr(f, '__module__', '') or '').startswith(self.prefix):
+                    return
+                for cell in (f.__closure__ or ()):
+                    try:
+                        v = cell.cell_contents
+                    except ValueError:
+                        continue
+                    if isinstance(v, (dict, list, set)) and id(v) not in seen:
+                        seen.add(id(v))
+                        cc.append(v)
+                    else:
+                        visit(v, depth + 1)
+                for v in list(vars(f).values()) + list(f.__defaults__ or ()) + list((f.__kwdefaults__ or {}).values()):
+                    if isinstance(v, (dict, list, set)) and id(v) not in seen:
+                        seen.add(id(v))
+                        cc.append(v)
+                    else:
+                        visit(v, depth + 1)
+                w = getattr(f, '__wrapped__', None)
+                if w is not None:
+                    visit(w, depth + 1)
+            for label, kind, h in self.holders():
+                if kind in ('module', 'class'):
+                    for v in list(vars(h).values()):
+                        visit(v)
+                        if isinstance(v, property):
+                            for g in (v.fget, v.fset, v.fdel):
+                                if g is not None:
+                                    visit(g)
+            self._cells = cc
+        return cc
+
     def capture(self):
         snap = {}
+        cells = []
+        for v in self._closure_cells():
+            if _size(v) <= SMALL:
+                try:
+                    cells.append((v, copy.deepcopy(v)))
+                except Exception:
+                    pass
+        snap[('__cells__', '')] = ('cells', cells, None)
         snap[('__foreign__', '')] = ('foreign', [(m, dict(vars(m))) for m in self._foreign_modules()], None)
         for label, kind, h in self.holders():
             # the exact set of names present now: any other name found at restore time is removed
@@ -205,11 +257,18 @@ class SharedState(object):
                 for k, v in names.items():
                     if d.get(k, self) is not v:
                         setattr(m, k, v)
+        for v, extra in snap.get(('__cells__', ''), (None, (), None))[1]:
+            if v != extra or (isinstance(v, dict) and list(v) != list(extra)):
+                if isinstance(v, list):
+                    v[:] = copy.deepcopy(extra)
+                else:
+                    v.clear()
+                    v.update(copy.deepcopy(extra))
         by_label = getattr(self, '_by_label', None)
         if by_label is None or by_label[0] is not snap:
             bl = {}
             for (lab, k), val in snap.items():
-                if lab == '__foreign__':
+                if lab in ('__foreign__', '__cells__'):
                     continue
                 bl.setdefault(lab, []).append((k, val))
             by_label = self._by_label = (snap, bl)
